@@ -995,6 +995,12 @@ def ite(c, a, b):
         cb, eb = aff_parts(b)
         if ca != cb and ea == eb:  # same linear part, different constant
             return xor(b, and_const(replicate(c, w), ca ^ cb))
+    # the absolute value written as a test of the sign: if x < 0 { p - x } else { p + x }  =  p + |x|  (x a signed w-bit value)
+    if c.op == "slt" and c.args[0].w == w and c.args[1].op == "const" and c.args[1].aux == 0 and w >= 8:
+        x = c.args[0]
+        base = add(a, x)
+        if base is sub(b, x):
+            return add(base, uabs(x))
     # ite(c, x ^ d, x) = x ^ (c ? d : 0): push when d is constant
     return _mk("ite", w, (c, a, b))
 
